@@ -570,20 +570,20 @@ private theorem assign_only_from_assignDefault (op : TestOp) (colon : Bool) (st 
     (h : testAction op colon st = .assign) : op = .assignDefault := by
   cases op <;> cases colon <;> cases st <;> first | rfl | cases h
 
-/-- operators whose result does not depend on *which* parameter is written in the braces:
-everything except `${#…}` (no indirect form), `=` (assigns to what is written) and the `$@` slice
-(which puts `$0` in front of what is written) -/
+/-- operators whose outcome does not depend on *which* parameter is written in the braces:
+everything except `${#…}` (no indirect form) and the `$@` slice (which puts `$0` in front of what
+is written) -/
 def SameThroughReference (t : Param) : Op → Prop
   | .len => False
-  | .test .assignDefault _ _ => False
   | .sub _ _ => match t with
     | .posAll _ _ => False
     | _ => True
   | _ => True
 
 /-- **`${!ref op w}` is `${target op w}`**: when the reference holds the text of a parameter, every
-operator — plain, `- :- + :+ ? :?`, `# ## % %%`, `:offset:length` — yields through the reference
-exactly the outcome it yields on the target written directly, for every state of the target (set,
+operator — plain, `- :- + :+ = := ? :?`, `# ## % %%`, `:offset:length` — yields through the reference
+exactly the outcome it yields on the target written directly (for `=`: the same substituted value
+and the same assignment, made to the target), for every state of the target (set,
 null, unset, list), **with nounset on or off**.  (The target is looked up with the same
 `allow_unset_vars` as the operator uses directly: an unset target under `set -u` is tolerated by
 exactly the operators that tolerate it when written directly.) -/
@@ -605,7 +605,21 @@ theorem indirect_eq_target (ref : Param) (name : Str) (env : Str → Option Para
     | all vals star => rfl
   | test k colon word =>
     cases k with
-    | assignDefault => exact absurd hop (by simp [SameThroughReference])
+    | assignDefault =>
+      have hres : ∀ a, expandParam ref a nounset = some (ofStr name) := by
+        intro a; rcases hr with rfl | ⟨ex, rfl⟩ | rfl <;> rfl
+      have hj : fieldsToString (ofStr name) = name := by simp [fieldsToString, ofStr, joinWith]
+      simp only [expandExprInd, expandExpr, h, hres, hj, ht]
+      cases expandParam t true nounset with
+      | none => rfl
+      | some e =>
+        simp only []
+        cases testAction .assignDefault colon (classify e) with
+        | assign => cases t <;> rfl
+        | param => rfl
+        | word => rfl
+        | error => rfl
+        | null => rfl
     | useDefault =>
       simp only [expandExprInd, expandExpr, h]
       cases expandParam t true nounset with
@@ -644,22 +658,28 @@ theorem indirect_eq_target (ref : Param) (name : Str) (env : Str → Option Para
         | null => rfl
   | rm k hasPat => simp only [expandExprInd, expandExpr, h]
 
-/-- `=` through a reference substitutes what it substitutes on the target; what it *assigns to* is
-the reference (recorded finding `indirect_assign_default_assigns_reference`: bash assigns the target). -/
-theorem indirect_assign_result_eq_target (name : Str) (env : Str → Option Param) (v : Option Str)
-    (nounset : Bool) (m : Str → Bool) (colon : Bool) (word : Str) (ht : env name = some (.named v)) :
-    (expandExprInd (.named (some name)) env nounset m (.test .assignDefault colon word)).res =
-      (expandExpr (.named v) nounset m (.test .assignDefault colon word)).res := by
-  have h := fun a => expandIndirect_holds (.named (some name)) name env (.named v) a nounset (Or.inl rfl) ht
-  simp only [expandExprInd, expandExpr, h]
+/-- `${!ref:=w}` assigns to the variable the reference names: whenever `=` assigns at all through
+a reference to a plain variable `v`, the outcome is the one of `${v:=w}` — `w` substituted and `w`
+assigned to `v` (not to the reference) — with nounset on or off. -/
+theorem indirect_assign_assigns_target (ref : Param) (name : Str) (env : Str → Option Param) (v : Option Str)
+    (nounset : Bool) (m : Str → Bool) (colon : Bool) (word : Str)
+    (hr : RefHolds ref name) (ht : env name = some (.named v))
+    (hs : posixTable .assignDefault colon (bashState (.named v)) = .assign) :
+    expandExprInd ref env nounset m (.test .assignDefault colon word) =
+      { res := .ok (ofStr word), assigned := some word } := by
+  rw [indirect_eq_target ref name env (.named v) nounset m _ hr ht (by simp [SameThroughReference]),
+    test_ops_refine_bash (.named v) nounset m m .assignDefault colon word]
+  cases v <;> simp only [bashExpr, expandParam, undefinedExpansion, Bool.true_or, ↓reduceIte, hs]
 
-/-- The testing operators through a reference compute bash's outcome on the target, for every
-state of the target, with nounset on or off. -/
+/-- The testing operators (`=` included) through a reference compute the outcome bash computes for
+the target written directly, for every state of the target, with nounset on or off.  (bash itself
+refuses `=` through a reference to an array element — `Spec.bashExprInd`, recorded finding
+`indirect_assign_element_target_accepted`.) -/
 theorem indirect_test_ops_refine_bash (ref : Param) (name : Str) (env : Str → Option Param) (t : Param)
     (nounset : Bool) (m m' : Str → Bool) (op : TestOp) (colon : Bool) (word : Str)
-    (hr : RefHolds ref name) (ht : env name = some t) (hop : op ≠ .assignDefault) :
+    (hr : RefHolds ref name) (ht : env name = some t) :
     expandExprInd ref env nounset m (.test op colon word) = bashExpr t nounset m' (.test op colon word) := by
-  rw [indirect_eq_target ref name env t nounset m _ hr ht (by cases op <;> simp_all [SameThroughReference])]
+  rw [indirect_eq_target ref name env t nounset m _ hr ht (by simp [SameThroughReference])]
   exact test_ops_refine_bash t nounset m m' op colon word
 
 /-- A reference without a value cannot be followed: every `${!ref…}` fails, whatever the operator
